@@ -279,7 +279,7 @@ def _gen(rng):
     return d
 
 
-CP = Unit('C07', OP + 'Optimizer.compile_params', _opt_params, post=_cp_post, abstract=_ABS, cases=_cases(), bounds=[{}],
+CP = Unit(['C07', 'C08'], OP + 'Optimizer.compile_params', _opt_params, post=_cp_post, abstract=_ABS, cases=_cases(), bounds=[{}],
           inline=['compile_params', 'fittingParameters', 'derivedParameters'], native=_cp_native, gen=_gen,
           frame_attrs=[('self', a) for a in ('fitting_parameters', 'fitting_priors', 'derived_parameters', '_fit_priors')],
           short='Optimizer.compile_params',
